@@ -120,6 +120,12 @@ class Module:
     def _fn(self, node, cls=None) -> FunctionInfo:
         src = ast.get_source_segment(self.text, node) or ""
         qn = f"{cls}.{node.name}" if cls else node.name
+        for n_ in ast.walk(node):
+            # function-local `from m import f` (used to break import cycles): resolved like a module-level import
+            # unless the module already binds that name
+            if isinstance(n_, ast.ImportFrom) and not n_.level and n_.module:
+                for a in n_.names:
+                    self.imports.setdefault(a.asname or a.name, f"{n_.module}.{a.name}")
         return FunctionInfo(
             module=self.name,
             qualname=qn,
